@@ -93,12 +93,20 @@ def build(scratch):
         (os.path.join(REPO, "services", "zz_verif_push.go"), os.path.join(VERIF, "overlay", "services_zz_verif_push.go")),
     ]
 
+    modfile = []
+    if os.path.abspath(REPO) != "/repo":
+        # build against another checkout (VERIF_REPO): same module files with the replace redirected
+        gm = open(os.path.join(VERIF, "sim", "go.mod")).read().replace("=> /repo", "=> " + os.path.abspath(REPO))
+        open(os.path.join(scratch, "go.mod"), "w").write(gm)
+        subprocess.run(["cp", os.path.join(VERIF, "sim", "go.sum"), os.path.join(scratch, "go.sum")], check=True)
+        modfile = ["-modfile", os.path.join(scratch, "go.mod")]
+
     def attempt(opts):
         full = dict(replace)
         full.update(dict(opts))
         json.dump({"Replace": full}, open(ovj, "w"), indent=1)
         ld = "-X verif/sim.pushSelectMode=" + ("rewritten" if push_rewritten else "constraint")
-        return subprocess.run([GO, "test", "-c", "-ldflags", ld, "-overlay", ovj, "-o", out, "."], cwd=VERIF + "/sim", env=env(), capture_output=True, text=True)
+        return subprocess.run([GO, "test", "-c"] + modfile + ["-ldflags", ld, "-overlay", ovj, "-o", out, "."], cwd=VERIF + "/sim", env=env(), capture_output=True, text=True)
 
     r = attempt(optional)
     if r.returncode != 0:
